@@ -369,6 +369,15 @@ mod sig {
         fn sigaltstack(ss: *const StackT, old: *mut StackT) -> i32;
         fn write(fd: i32, buf: *const u8, n: usize) -> isize;
         fn _exit(code: i32) -> !;
+        fn alarm(seconds: u32) -> u32;
+    }
+    /// Watchdog: the run must finish within `seconds` (0 cancels). SIGALRM is reported like a crash
+    /// ("CRASH sig=14 run=<i>"), i.e. a run that fails to terminate kills only its worker.
+    pub fn watchdog(seconds: u32) {
+        // SAFETY: plain libc call
+        unsafe {
+            alarm(seconds);
+        }
     }
     const SA_SIGINFO: i32 = 4;
     const SA_ONSTACK: i32 = 0x0800_0000;
@@ -419,7 +428,7 @@ mod sig {
             let st = StackT { sp: stack.as_mut_ptr(), flags: 0, size: stack.len() };
             sigaltstack(&st, std::ptr::null_mut());
             let act = SigAction { handler: on_signal as usize, mask: [0; 16], flags: SA_SIGINFO | SA_ONSTACK, restorer: 0 };
-            for s in [11, 7, 4, 8, 6] {
+            for s in [11, 7, 4, 8, 6, 14] {
                 sigaction(s, &act, std::ptr::null_mut());
             }
         }
@@ -429,4 +438,9 @@ mod sig {
 pub fn install_crash_handler() {
     #[cfg(not(miri))]
     sig::install();
+}
+
+pub fn watchdog(_seconds: u32) {
+    #[cfg(not(miri))]
+    sig::watchdog(_seconds);
 }
